@@ -83,6 +83,13 @@ claimed.update({
    technique="explicit enumeration of all small trees x encodings x edge permutations x versions through the real writer/reader",
    design="5/C02"),
 })
+claimed.update({
+ "C03": dict(
+   text="Bounded exhaustive exploration of translation completeness on the real writer: every well-formed graph over <=3 ids (ordered edge lists of contains/dependsOn/other edge objects, DAGs, cycles, self loops, every root subset; plain / two-purposes / file-kind attribute patterns) x all 7 registered formats, and every single structural mutation (delete/duplicate an element, delete/duplicate/retarget a relationship) at every position of each real SBOM of the repository reduced to its first k elements, parsed and written in CycloneDX 1.4/1.5 and SPDX 2.3; the output is decoded with encoding/json only and censused (every node exactly once, every expressible relationship present, nothing invented, no dangling reference), then read back for identity attributes.",
+   note="Trusted: the plain-JSON census (no protobom or SBOM library type involved). CycloneDX containment pairs asserted for forests; identifiers that are not valid SPDX idstrings are only censused, not re-read.",
+   technique="explicit enumeration of small graphs x formats and of single mutations of reduced real SBOMs with an independent JSON census",
+   design="5/C03"),
+})
 pending = {}
 all_ids = ["C%02d" % i for i in range(1, 21)]
 checks = []
